@@ -16,6 +16,7 @@ package main
 // A source without an entry is a failed obligation (ordind:uncovered).
 
 import (
+	"sort"
 	"crypto/sha256"
 	"encoding/json"
 	"fmt"
@@ -770,4 +771,175 @@ func cmdSweep(args []string) {
 			fmt.Printf("  unproved %-8s %s   [%s]\n", s.Why, s.Key, s.Pos)
 		}
 	}
+}
+
+// ---- goroutine capture rule (C20): data-race freedom of the variables a `go func(){...}()` literal captures.
+// For each go statement of the repository: a captured local that the goroutine writes must be a per-iteration
+// instance (declared inside the innermost loop body around the go statement, or the function has no loop) and
+// must not be mentioned by the spawning function after the go statement; a captured local that the goroutine only
+// reads must not be assigned by the spawning function after the go statement, nor anywhere in the loop when it is
+// declared outside of it. Exempt: sync.* values (WaitGroup, Mutex), channels, and package-level variables of a
+// struct type with `guarded` fields (their accesses are the lock-discipline obligations).
+func goCaptureObligations(cc *checkCtx, w *World) *extraResult {
+	ex := &extraResult{Coverage: map[string]interface{}{}}
+	guardedStructs := map[string]bool{}
+	for _, g := range w.Guarded {
+		guardedStructs[g.Struct] = true
+	}
+	exempt := func(o *types.Var) bool {
+		t := types.Unalias(o.Type())
+		if _, isChan := t.Underlying().(*types.Chan); isChan {
+			return true
+		}
+		if p, ok := t.(*types.Pointer); ok {
+			t = types.Unalias(p.Elem())
+		}
+		if n, ok := t.(*types.Named); ok && n.Obj().Pkg() != nil {
+			if n.Obj().Pkg().Path() == "sync" {
+				return true
+			}
+			if guardedStructs[n.Obj().Pkg().Path()+"."+n.Obj().Name()] || guardedStructs[shortName(n.Obj().Pkg().Path()+"."+n.Obj().Name())] {
+				return true
+			}
+		}
+		return false
+	}
+	var sites []string
+	for _, k := range w.sortedFuncKeys() {
+		fi := w.Funcs[k]
+		if fi.Decl == nil || fi.Decl.Body == nil {
+			continue
+		}
+		info := fi.Pkg.TypesInfo
+		// stack of enclosing loops while walking
+		var loops []ast.Node
+		nGo := 0
+		var visit func(n ast.Node) bool
+		visit = func(n ast.Node) bool {
+			switch x := n.(type) {
+			case *ast.ForStmt, *ast.RangeStmt:
+				loops = append(loops, n)
+				var body *ast.BlockStmt
+				if f, ok := x.(*ast.ForStmt); ok {
+					body = f.Body
+				} else {
+					body = x.(*ast.RangeStmt).Body
+				}
+				ast.Inspect(body, visit)
+				loops = loops[:len(loops)-1]
+				return false
+			case *ast.GoStmt:
+				fl, ok := x.Call.Fun.(*ast.FuncLit)
+				if !ok {
+					return true
+				}
+				nGo++
+				declared := map[types.Object]bool{}
+				ast.Inspect(fl, func(m ast.Node) bool {
+					if id, ok := m.(*ast.Ident); ok {
+						if o := info.Defs[id]; o != nil {
+							declared[o] = true
+						}
+					}
+					return true
+				})
+				written := map[*types.Var]bool{}
+				captured := map[*types.Var]bool{}
+				mark := func(e ast.Expr) {
+					if id, ok := ast.Unparen(e).(*ast.Ident); ok {
+						if o, ok := info.ObjectOf(id).(*types.Var); ok && !declared[o] {
+							written[o] = true
+						}
+					}
+				}
+				ast.Inspect(fl.Body, func(m ast.Node) bool {
+					switch y := m.(type) {
+					case *ast.Ident:
+						if o, ok := info.Uses[y].(*types.Var); ok && !declared[o] && !o.IsField() {
+							captured[o] = true
+						}
+					case *ast.AssignStmt:
+						for _, l := range y.Lhs {
+							mark(l)
+						}
+					case *ast.IncDecStmt:
+						mark(y.X)
+					case *ast.UnaryExpr:
+						if y.Op == token.AND {
+							mark(y.X)
+						}
+					}
+					return true
+				})
+				var innermost ast.Node
+				if len(loops) > 0 {
+					innermost = loops[len(loops)-1]
+				}
+				var names []*types.Var
+				for o := range captured {
+					names = append(names, o)
+				}
+				sort.Slice(names, func(i, j int) bool { return names[i].Name() < names[j].Name() })
+				for _, o := range names {
+					if exempt(o) {
+						continue
+					}
+					pkgLevel := o.Parent() != nil && o.Pkg() != nil && o.Parent() == o.Pkg().Scope()
+					inLoopBody := innermost != nil && o.Pos() > innermost.Pos() && o.Pos() < innermost.End() && !pkgLevel
+					// what the spawning function does with the variable after the go statement / in the loop
+					usedAfter, assignedAfter, assignedInLoop := false, false, false
+					ast.Inspect(fi.Decl.Body, func(m ast.Node) bool {
+						if m == ast.Node(fl) {
+							return false
+						}
+						switch y := m.(type) {
+						case *ast.Ident:
+							if info.Uses[y] == types.Object(o) && y.Pos() > x.End() {
+								usedAfter = true
+							}
+						case *ast.AssignStmt:
+							for _, l := range y.Lhs {
+								if id, ok := ast.Unparen(l).(*ast.Ident); ok && info.ObjectOf(id) == types.Object(o) && y.Tok != token.DEFINE {
+									if y.Pos() > x.End() {
+										assignedAfter = true
+									}
+									if innermost != nil && y.Pos() > innermost.Pos() && y.Pos() < innermost.End() {
+										assignedInLoop = true
+									}
+								}
+							}
+						}
+						return true
+					})
+					name := fmt.Sprintf("%s#gocapture:%d:%s", fi.FullKey(), nGo, o.Name())
+					site := fmt.Sprintf("%s go#%d captures %s", shortName(fi.FullKey()), nGo, o.Name())
+					ok := true
+					why := ""
+					switch {
+					case written[o] && pkgLevel:
+						ok, why = false, "a package-level variable is written by the goroutine"
+					case written[o] && innermost != nil && !inLoopBody:
+						ok, why = false, "the goroutine writes a variable declared outside the loop that spawns it: every goroutine (and the spawning function) shares it"
+					case written[o] && usedAfter:
+						ok, why = false, "the goroutine writes a variable the spawning function still uses after the go statement"
+					case !written[o] && (assignedAfter || (innermost != nil && !inLoopBody && assignedInLoop)):
+						ok, why = false, "the spawning function assigns a variable a running goroutine reads"
+					}
+					if ok {
+						ex.Obls = append(ex.Obls, &Obligation{Name: name, Func: fi.FullKey(), Kind: "post", Pos: w.pos(x.Pos()), Text: "captured variable " + o.Name() + " is not shared with a writer", Result: "unsat", Solver: "syntactic", Preset: true})
+						sites = append(sites, site+": ok")
+					} else {
+						ex.Obls = append(ex.Obls, presetObligation(name, fi.FullKey(), w.pos(x.Pos()), "captured variable "+o.Name()+": "+why, "data-race"))
+						sites = append(sites, site+": "+why)
+					}
+				}
+				return true
+			}
+			return true
+		}
+		ast.Inspect(fi.Decl.Body, visit)
+	}
+	ex.Coverage["goroutine_captures"] = sites
+	ex.Assumptions = append(ex.Assumptions, "goroutine capture rule: syntactic; objects reached through captured pointers other than sync.* values and lock-guarded structs are not tracked")
+	return ex
 }
